@@ -15,7 +15,7 @@ from props.common import load_def, mk_dfa, mk_nfa, outcome
 
 RULE = ("histories of 1-12 queries on one DFA instance (count/words for lengths 0..K incl. shorter-after-longer, "
         "words_of_length and iteration and successors abandoned after n items, random_word with seed, cardinality, len, "
-        "min/max length, isempty, isfinite, clear_cache, interleaved accepts_input / == / <= / successor) and on one NFA "
+        "min/max length, isempty, isfinite, clear_cache, interleaved accepts_input / == / <= / successor(s) / predecessor(s) with default and reversed symbol order) and on one NFA "
         "instance (accepts_input, partially consumed read_input_stepwise, ==, DFA.from_nfa, eliminate_lambda); DFAs from "
         "the C13 generators (random cyclic, acyclic finite-language, empty); distinct = distinct (canonical automaton, "
         "history); non-trivial = history has >= 3 queries of which >= 2 touch a cache or a memo")
@@ -71,16 +71,22 @@ def rand_history(rng, prof, other_defs):
             hist.append(["iter", min(want, top) if not prof["finite"] else want])
         elif r < 0.88:
             hist.append(["clear"])
-        elif r < 0.92:
+        elif r < 0.90:
             hist.append(["accepts", gen.rand_word(rng, prof["sigma"], 6)])
-        elif r < 0.95:
+        elif r < 0.92:
             hist.append([rng.choice(["eq", "le"]), rng.randrange(len(other_defs))])
         else:
             start = gen.rand_word(rng, prof["sigma"], 4) if rng.random() < 0.7 else None
-            if rng.random() < 0.5:
-                hist.append(["successors", start, rng.choice([0, 1, 2, 4]), K])
+            rk = rng.choice([0, 0, 1])          # 0: default symbol order, 1: reversed order through key=
+            r2 = rng.random()
+            if r2 < 0.3:
+                hist.append(["successors", start, rng.choice([0, 1, 2, 4]), K, rk])
+            elif r2 < 0.5:
+                hist.append(["successor", start, K, rk])
+            elif r2 < 0.8:
+                hist.append(["predecessors", start if start is not None else "", rng.choice([1, 2, 4, 50]), K, rk])
             else:
-                hist.append(["successor", start, K])
+                hist.append(["predecessor", start if start is not None else "", K, rk])
     return hist
 
 
@@ -125,10 +131,16 @@ def run_query(d, q, sy, others):
         return outcome(lambda: d == others[q[1]])[:2]
     if kind == "le":
         return outcome(lambda: d <= others[q[1]])[:2]
+    def kw(rk):
+        return {"key": (lambda c: -ord(c))} if rk else {}
     if kind == "successors":
-        return outcome(lambda: list(itertools.islice(d.successors(q[1], max_length=q[3]), q[2])))[:2]
+        return outcome(lambda: list(itertools.islice(d.successors(q[1], max_length=q[3], **kw(q[4])), q[2])))[:2]
     if kind == "successor":
-        return outcome(lambda: d.successor(q[1], max_length=q[2]))[:2]
+        return outcome(lambda: d.successor(q[1], max_length=q[2], **kw(q[3])))[:2]
+    if kind == "predecessors":
+        return outcome(lambda: list(itertools.islice(d.predecessors(q[1], max_length=q[3], **kw(q[4])), q[2])))[:2]
+    if kind == "predecessor":
+        return outcome(lambda: d.predecessor(q[1], max_length=q[2], **kw(q[3])))[:2]
     raise ValueError(kind)
 
 
